@@ -330,6 +330,32 @@ func ruleBgCancellable(c *Ctx, r *R, names ...string) {
 								okB = true
 							}
 						}
+						// the channel is a parameter of a helper: what its callers pass
+						if p, ok := a.ch.(*ssa.Parameter); ok && p.Parent() == g {
+							sites := callCommonsOf(c, g)
+							all := len(sites) > 0
+							for pi, pp := range g.Params {
+								if pp != p {
+									continue
+								}
+								for _, cc := range sites {
+									okSite := false
+									if pi < len(cc.Args) {
+										for _, lf := range cellLeaves(cc.Args[pi], nil, 0) {
+											if cell := loadCell(lf.v); cell != nil && peerClosed[cell] {
+												okSite = true
+											}
+										}
+									}
+									if !okSite {
+										all = false
+									}
+								}
+							}
+							if all {
+								okB = true
+							}
+						}
 					}
 					if a.kind == "timer" && !a.send && op.kind == "recv" {
 						okC = timerDrainIdiom(op.in)
@@ -349,8 +375,65 @@ func ruleBgCancellable(c *Ctx, r *R, names ...string) {
 					r.violated(key, posOf(op.in), "blocking "+op.kind+" in a background goroutine that Close waits for cannot be interrupted: "+why+" ⇒ Close can hang")
 				}
 			}
+			// blocking done through a context-aware helper of the module (chans.SendContext / RecvContext): the context handed
+			// to it must be the one Close cancels
+			instrs(g, func(b *ssa.BasicBlock, i int, in ssa.Instruction) {
+				call, ok := in.(*ssa.Call)
+				if !ok {
+					return
+				}
+				cal := staticCallee(&call.Call)
+				if cal == nil || !ctxBlockingHelper(c, cal) || rootFn(cal).Pkg == rootFn(g).Pkg {
+					return
+				}
+				k++
+				key := name + "|" + strings.TrimPrefix(gname, name) + "|call[" + funcShort(cal) + "]#" + itoa(k)
+				var ctxArg ssa.Value
+				for _, a := range call.Call.Args {
+					if isContextType(a.Type()) && ctxArg == nil {
+						ctxArg = a
+					}
+				}
+				if ctxArg == nil {
+					r.violated(key, call.Pos(), "blocking helper called without a context")
+					return
+				}
+				if ok, w := bi.ctxOK(ctxArg); ok {
+					r.discharged(key, call.Pos(), "blocks inside "+funcShort(cal)+", which selects on the Done() of the context Close cancels")
+				} else {
+					r.violated(key, call.Pos(), "blocking call of "+funcShort(cal)+" in a background goroutine that Close waits for cannot be interrupted: "+w+" ⇒ Close can hang")
+				}
+			})
 		}
 	}
+}
+
+// ctxBlockingHelper: a module function that takes a context and blocks only in selects that have a Done() arm of that context.
+func ctxBlockingHelper(c *Ctx, cal *ssa.Function) bool {
+	if cal == nil || cal.Blocks == nil || !c.inModule(cal) || cal.Parent() != nil {
+		return false
+	}
+	p := ctxParam(cal)
+	if p == nil {
+		return false
+	}
+	n := 0
+	for _, op := range chanOpsOf(cal) {
+		if !op.blocking {
+			continue
+		}
+		n++
+		has := false
+		for _, a := range op.arms {
+			if a.kind == "ctx-done" && !a.send && a.ctx == ssa.Value(p) {
+				has = true
+			}
+		}
+		if op.kind != "select" || !has {
+			return false
+		}
+	}
+	return n > 0
 }
 
 func isDeferredClosure(g *ssa.Function) bool {
